@@ -259,7 +259,7 @@ func (d *drv) dial(addr string) (net.Conn, error) {
 		if d.nextPort > 60000 {
 			d.nextPort = 33000
 		}
-		dl := net.Dialer{Timeout: time.Second, LocalAddr: &net.TCPAddr{IP: net.ParseIP(clientIP), Port: d.nextPort}}
+		dl := net.Dialer{Timeout: 4 * time.Second, LocalAddr: &net.TCPAddr{IP: net.ParseIP(clientIP), Port: d.nextPort}}
 		var c net.Conn
 		c, err = dl.Dial("tcp", addr)
 		if err == nil {
@@ -269,7 +269,7 @@ func (d *drv) dial(addr string) (net.Conn, error) {
 		if errors.Is(err, syscall.ECONNREFUSED) {
 			return nil, err
 		}
-		if !errors.Is(err, syscall.EADDRINUSE) && !errors.Is(err, syscall.EADDRNOTAVAIL) {
+		if !errors.Is(err, syscall.EADDRINUSE) && !errors.Is(err, syscall.EADDRNOTAVAIL) && !strings.Contains(err.Error(), "bind:") {
 			return nil, err
 		}
 	}
